@@ -731,3 +731,121 @@ Proof.
   unfold mean_of. cbn [Q_ops add div ofZ]. rewrite (Permutation_length P).
   rewrite (qsum_perm m m' P). reflexivity.
 Qed.
+
+(* ------------------------------------------------------------------------------------------------ *)
+(* the statements of Properties_C20.v (that file only restates them and prints their assumptions)     *)
+(* ------------------------------------------------------------------------------------------------ *)
+
+Definition order_ok {T} (Op : ops T) : Prop :=
+  (forall x y, cmp Op y x = - cmp Op x y) /\
+  (forall x y z, cmp Op x y <= 0 -> cmp Op y z <= 0 -> cmp Op x z <= 0).
+
+Lemma s_order_statistic : forall T (Op : ops T), order_ok Op -> forall (l : list T) (d : T) (k : nat),
+  (StronglySorted (le Op) (sort Op l) /\ Permutation (sort Op l) l) /\
+  ((k < length l)%nat ->
+     let x := nth k (sort Op l) d in
+     In x l /\ (count_lt Op x l <= k)%nat /\ (k < count_le Op x l)%nat /\
+     (forall y, (count_lt Op y l <= k)%nat -> (k < count_le Op y l)%nat -> equiv Op x y) /\
+     (forall s', StronglySorted (le Op) s' -> Permutation s' l -> equiv Op (nth k s' d) x)).
+Proof.
+  intros T Op [Ha Ht] l d k. split; [split; [apply sort_sorted | apply sort_perm]; assumption|].
+  intros Hk x. destruct (order_statistic Op Ha Ht l d k Hk) as (H0 & H1 & H2).
+  split; [exact H0|]. split; [exact H1|]. split; [exact H2|]. split.
+  - intros y Hy1 Hy2. exact (rank_unique Op Ha Ht l k x y H1 H2 Hy1 Hy2).
+  - intros s' Hs Hp. exact (any_sort_agrees Op Ha Ht l s' d k Hs Hp Hk).
+Qed.
+
+Lemma s_percentile_spec : forall T (Op : ops T), order_ok Op -> forall (l : list T) (p : PrimFloat.float),
+  let s := sort Op l in
+  let n := Z.of_nat (length l) in
+  let lp := pct_lpos p n in
+  let rp := pct_rpos p n in
+  (StronglySorted (le Op) s /\ Permutation s l /\
+   percentile Op l p = (if lp =? rp then nthZ Op s lp else midpoint Op (nthZ Op s lp) (nthZ Op s rp))) /\
+  (StronglySorted (le Op) l -> percentile_sorted Op l p = percentile Op l p).
+Proof.
+  intros T Op [Ha Ht] l p. cbv zeta. split.
+  - exact (percentile_spec Op Ha Ht l p).
+  - exact (percentile_sorted_agrees Op Ha l p).
+Qed.
+
+Lemma s_position_exact_partial : forall k n, 0 <= k <= 1600 -> 1 <= n <= 512 ->
+  SFvalue_is (FloatOps.Prim2SF (grid_p k)) k 16 = true /\
+  pct_lpos (grid_p k) n = (k * (n - 1)) / 1600 /\
+  pct_rpos (grid_p k) n = - ((- (k * (n - 1))) / 1600) /\
+  0 <= pct_lpos (grid_p k) n <= pct_rpos (grid_p k) n /\ pct_rpos (grid_p k) n <= n - 1 /\
+  pct_rpos (grid_p k) n <= pct_lpos (grid_p k) n + 1.
+Proof.
+  intros k n Hk Hn. destruct (position_grid k n Hk Hn) as (H1 & H2 & H3).
+  destruct (position_grid_range k n Hk Hn) as (H4 & H5 & H6 & _). tauto.
+Qed.
+
+Lemma s_percentile_formula : forall T (Op : ops T), order_ok Op -> forall (l : list T) (k : Z),
+  0 <= k <= 1600 -> (1 <= length l <= 512)%nat ->
+  let s := sort Op l in
+  let a := k * (Z.of_nat (length l) - 1) in
+  percentile Op l (grid_p k) =
+  if a mod 1600 =? 0 then nthZ Op s (a / 1600)
+  else midpoint Op (nthZ Op s (a / 1600)) (nthZ Op s (a / 1600 + 1)).
+Proof. intros T Op [Ha Ht]. exact (percentile_grid Op Ha Ht). Qed.
+
+Lemma s_median : forall T (Op : ops T), order_ok Op -> forall (l : list T),
+  (1 <= length l <= 4096)%nat ->
+  let s := sort Op l in
+  let n := Z.of_nat (length l) in
+  median Op l =
+  if Z.odd n then nthZ Op s ((n - 1) / 2)
+  else midpoint Op (nthZ Op s (n / 2 - 1)) (nthZ Op s (n / 2)).
+Proof. intros T Op [Ha Ht]. exact (median_spec Op Ha Ht). Qed.
+
+Lemma s_partition : forall T (Op : ops T), order_ok Op -> forall (thr vals : list T),
+  let st := sort Op thr in
+  let s := sort Op vals in
+  let B := hist_bins Op st s in
+  (StronglySorted (le Op) st /\ Permutation st thr) /\
+  length B = S (length thr) /\
+  concat B = s /\ Permutation (concat B) vals /\
+  (forall b, (b <= length thr)%nat ->
+     nth b B [] = filter (in_binb Op st b) s /\
+     nth b B [] = filter (fun v => hist_bin Op st v =? Z.of_nat b) s /\
+     length (nth b B []) = count (in_binb Op st b) vals) /\
+  histogram Op thr vals = (st, map (bin_summary Op) B) /\
+  (forall m, bin_summary Op m =
+     (Z.of_nat (length m),
+      if 0 <? Z.of_nat (length m) then mean_of Op m else nan Op,
+      if 0 <? Z.of_nat (length m) then median_sorted Op m else nan Op)).
+Proof.
+  intros T Op [Ha Ht] thr vals. cbv zeta.
+  destruct (hist_partition Op Ha Ht thr vals) as (H1 & H2 & H3 & H4 & H5 & H6).
+  repeat (split; [assumption|]). exact (bin_summary_spec Op).
+Qed.
+
+Lemma s_bin_agrees : forall T (Op : ops T), order_ok Op -> forall (st : list T) (v : T),
+  StronglySorted (le Op) st ->
+  0 <= hist_bin Op st v <= Z.of_nat (length st) /\
+  (forall b, (b <= length st)%nat -> (hist_bin Op st v = Z.of_nat b <-> in_binb Op st b v = true)) /\
+  (forall thr vals, st = sort Op thr -> In v vals ->
+     In v (nth (Z.to_nat (hist_bin Op st v)) (hist_bins Op st (sort Op vals)) [])).
+Proof.
+  intros T Op [Ha Ht] st v Hs. split; [apply bin_range|]. split.
+  - intros b Hb. exact (bin_agrees Op Ha Ht st v b Hs Hb).
+  - intros thr vals -> Hv. exact (bin_of_data Op Ha Ht thr vals v Hv).
+Qed.
+
+Lemma s_exact_mean : forall (thr vals : list Q) (b : nat), (b <= length thr)%nat ->
+  let st := sort Q_ops thr in
+  let m := nth b (hist_bins Q_ops st (sort Q_ops vals)) [] in
+  let m' := filter (in_binb Q_ops st b) vals in
+  length m = length m' /\
+  (mean_of Q_ops m == fold_left Qplus m' 0 / inject_Z (Z.of_nat (length m')))%Q.
+Proof. exact Q_bin_mean. Qed.
+
+Lemma s_kernels : forall t v n,
+  src_hist_goes_right t v = src_hist_goes_right 0 (zcmp v t) /\
+  src_hist_goes_right t v = (t <=? v) /\
+  src_bin_query v = v /\ src_bin_last (src_hist_bins n) = n /\ src_pct_last n = n - 1.
+Proof.
+  intros t v n. split; [apply k_goes_right_order|]. split.
+  - unfold src_hist_goes_right. apply Z.geb_leb.
+  - split; [reflexivity|]. split; [unfold src_bin_last, src_hist_bins; apply Z.add_simpl_r | reflexivity].
+Qed.
